@@ -174,16 +174,23 @@ fn right_hand_side(n: u32, big_delta: u32, epsilon: f64) -> f64 {
     }
     a * result
 }
+/// Largest shift accepted by `TruncatedDoubleGeometric::new`.
+const MAX_SHIFT: u32 = 1_000_000;
+
 fn find_smallest_n(big_delta: u32, epsilon: f64, small_delta: f64) -> u32 {
     // for a fixed set of DP parameters, finds the smallest n that satisfies equation (11)
     // of https://arxiv.org/pdf/2110.08177.pdf.  This gives the narrowest TruncatedDoubleGeometric
     // that will satisfy the desired DP parameters.
-    for n in big_delta.. {
+    //
+    // `TruncatedDoubleGeometric::new` rejects shifts over 1M, so the search stops there: without a
+    // bound it never terminates when the right hand side is NaN (epsilon NaN, or so small that
+    // e^-epsilon rounds to 1) or decreases too slowly to reach delta.
+    for n in big_delta..=MAX_SHIFT {
         if small_delta >= right_hand_side(n, big_delta, epsilon) {
             return n;
         }
     }
-    panic!("No smallest n found for OPRF padding DP");
+    MAX_SHIFT + 1
 }
 
 impl OPRFPaddingDp {
